@@ -42,6 +42,10 @@ MANIFEST = dict(
 
 def report_direct(ctx, data):
     for d in data["direct_fails"]:
+        if d["signature"].startswith("C09:atom-order"):
+            ctx.report(d["signature"], d["what"], dict(history=d["history"], history_text=d["history_text"], pair=d.get("pair"),
+                                                       how="./check C09 --replay <this file> reads the two values in two fresh interpreters"))
+            continue
         ctx.report(d["signature"], d["what"], dict(history=d["history"], history_text=d["history_text"],
                                                    outcomes=d["outcomes"], refuted_theorem=REFUTED.get(d["signature"]),
                                                    how="./check C09 --replay <this file> re-runs the history in a fresh interpreter"))
@@ -132,6 +136,13 @@ def _run(ctx):
             args += [1500, wpath]
             ctx.cov["transition_coverage"] = dict(pairs=npairs, histories_run=nused)
     data = vlib.run_harness("c09.py", args, timeout=20000)
+    # breadth over atoms: every lazy value of every element read in several orders (tools/harness/c09order.py)
+    try:
+        od = vlib.run_harness("c09order.py", [ctx.seed, ctx.tier], timeout=6000)
+        data["direct_fails"].extend(od["direct_fails"])
+        ctx.cov["atom_orders"] = od["stats"]
+    except Exception as e:  # noqa
+        ctx.note("atom-order stream did not run: %s" % str(e)[:300])
     cases, meta, st = data["cases"], data["meta"], data["stats"]
     ctx.cov["rule"] = ("one fresh interpreter per history; per property group every sequence of first touches (read via "
                        "element/isotope/ion, hasattr, calculator, import, init(elements), init(private)) of length <= %d, "
@@ -184,6 +195,13 @@ def _run(ctx):
 
 def replay(path):
     doc = json.load(open(path))
+    if doc.get("pair"):
+        res = vlib.run_harness("c09order.py", ["--pair", json.dumps(doc["pair"])], timeout=600)
+        if res["reproduced"]:
+            print("REPRODUCED: %s (differs: %s)" % (doc.get("what"), res["differs"][:4]))
+            return 1
+        print("not reproduced on the current tree")
+        return 0
     if not doc.get("history"):
         print("replay: %s records an obligation (%s); re-run ./check C09 %s" % (path, doc.get("what", "")[:200], doc.get("tier", "quick")))
         return 0
